@@ -40,6 +40,7 @@ func genAffinityPlan(seed uint64, tier string) *Plan {
 	c.Faults.SegPct = g.pick2(0, 30, 80)
 	c.Faults.ShortReadPct = g.pick2(0, 30)
 	c.Faults.MaxSegs = 5
+	c.Faults.LatGrid = g.pick2(0, 4, 8)
 	nconn := g.rng(2, 8)
 	clientIP := "10.1.0.1"
 	sameSentBy := g.chance(50)
@@ -50,7 +51,7 @@ func genAffinityPlan(seed uint64, tier string) *Plan {
 		}
 		for t := 0; t < ntx; t++ {
 			id := g.nextID()
-			op := Op{Kind: "tx", ID: id, Conn: fmt.Sprintf("k%d", ci), SrcIP: clientIP, DelayUs: int64(g.intn(30000)),
+			op := Op{Kind: "tx", ID: id, Conn: fmt.Sprintf("k%d", ci), SrcIP: clientIP, DelayUs: int64(g.intn(12)) * 2500,
 				S: map[string]string{"method": g.pick("INVITE", "OPTIONS", "MESSAGE", "REGISTER", "INFO"), "prov": g.pick("", "100", "180", "100,180", "183")},
 				I: map[string]int{"final": g.pick2(200, 200, 404, 486, 302, 603), "d1": 200 + g.intn(8000), "d2": 300 + g.intn(8000), "rport": g.intn(3)}}
 			if sameSentBy {
